@@ -358,6 +358,11 @@ fn main() {
         let mut cases: Vec<Case> = vec![];
         for full in [false, true] {
             for (version, v1_sampled) in [(3u64, false), (2, false), (1, false), (1, true), (0, false), (4, false), (5, false)] {
+                // quick: the pre-populated layout only for the versions that are migrated or
+                // current (1, 1+sampled, 2, 3); thorough: for every version
+                if full && ctx.quick() && matches!(version, 0 | 4 | 5) {
+                    continue;
+                }
                 for stored in 0..(1u32 << n) {
                     let sampled_space = if version == 1 && !v1_sampled { 1 } else { 1u32 << n };
                     for sampled in 0..sampled_space {
@@ -374,7 +379,7 @@ fn main() {
         &ctx,
         rep,
         Spec {
-            rule: "databases written with plain redb using the historical table definitions: every subset of heights 1..=N (N=6 quick, 7 thorough) as stored ranges x every subset as sampled ranges x schema version in {absent,1,1+sampled,2,3,4,5} (plain v1 has no sampled ranges: stored subsets only; '1+sampled' = v1 height-ranges table plus a STORE.RANGES table with the sampled ranges under the pre-v3 key) x layout {bare, all tables + identity}; each opened twice with the real RedbStore::new over a cloneable backend; distinct = (N, version variant, stored, sampled, layout); non-trivial = some range is non-empty",
+            rule: "databases written with plain redb using the historical table definitions: every subset of heights 1..=N (N=6 quick, 7 thorough) as stored ranges x every subset as sampled ranges x schema version in {absent,1,1+sampled,2,3,4,5} (plain v1 has no sampled ranges: stored subsets only; '1+sampled' = v1 height-ranges table plus a STORE.RANGES table with the sampled ranges under the pre-v3 key) x layout {bare, all tables + identity (quick: the second layout only for versions 1, 1+sampled, 2, 3)}; each opened twice with the real RedbStore::new over a cloneable backend; distinct = (N, version variant, stored, sampled, layout); non-trivial = some range is non-empty",
             assumptions: &[
                 "v1 layout reconstructed from migrate_v1_to_v2: STORE.HEIGHT_RANGES : u64 index -> (start,end), ascending, no sampled ranges; v2 from migrate_v2_to_v3: STORE.RANGES with KEY.HEADER_RANGES and KEY.ACCEPTED_SAMPING_RANGES",
                 "'absent' = current layout without a schema version entry (what the store treats as a new database)",
